@@ -10,9 +10,11 @@ real `Parser(ctx, text).parse_module()` under CPU-time accounting and classifies
 
 Tier A (verdict for crashes) = no frame of a non-builtin dialect module / declarative format on the stack, i.e. generic
 syntax + builtin attributes/types handled by the anchored files; tier B = dialect custom syntax (see TIER_B_IN_VERDICT).
-Hangs and super-linear time are verdict in both tiers."""
+Hangs and super-linear time are keyed by the innermost frame of the parser files on the stack (one key per mechanism whatever the
+syntactic route); they are verdict unless dialect code lies below that frame (time spent in dialect code: observation)."""
 from __future__ import annotations
 
+import faulthandler
 import json
 import os
 import random
@@ -46,7 +48,9 @@ LEVEL_TEXT = ("Every generated text is parsed by the real parser in a killable c
               "accepts only a returned module or a ParseError/DiagnosticException-family exception (and requires str() of it to "
               "work), everything else is classified by exception type and innermost raising xDSL function; time is judged "
               "against 1 s + 1 ms/char with a doubling probe, hangs are killed at 20x budget. Held = no crash in tier A (no "
-              "dialect custom-syntax code on the stack) and no hang/super-linear input in either tier among the inputs explored.")
+              "dialect custom-syntax code on the stack) and no hang/super-linear input whose canonical site (innermost frame of the "
+              "parser files on the stack, with no dialect code below it) is in the parser among the inputs explored; time spent "
+              "inside dialect code called by the parser is reported as an observation.")
 LEVEL_NOTE = ("trusts CPython's time.process_time / /proc CPU accounting, faulthandler stack dumps and the tier classifier (stack "
               "frames by file); recursion limit is CPython's default 1000 as under xdsl-opt; inputs are valid Python str without "
               "lone surrogates; dialect custom-syntax crash sites (tier B) are reported as observations, not in the verdict; "
@@ -114,6 +118,7 @@ class G:
     regex_probe = None
     slow_site = None
     slow_hist = {}
+    fh = None
 
 
 DIAG_HELPERS = {"raise_error", "expect", "_parse_token", "parse_punctuation", "parse_keyword", "_consume_token",
@@ -409,17 +414,30 @@ GENERIC_HELPERS = {"lex", "_consume_regex", "_consume_whitespace",
                    "is_spelling_of_punctuation", "get_punctuation_kind_from_name", "__new__", "__setattr__", "__getattr__"}
 
 
+def _anchored(fn: str) -> bool:
+    return "/xdsl/parser/" in fn or fn.endswith(("/utils/mlir_lexer.py", "/utils/lexer.py", "/utils/exceptions.py"))
+
+
 def pick_site(frames):
-    """Mechanism site of a slow/hung parse from its stack (innermost first, [(filename, function name)]):
-    dialect custom syntax on the stack -> innermost dialect frame; otherwise the innermost frame of the parser
-    package / lexers / exceptions that is not a generic token helper (e.g. a slow `pack` or big-int shift below the dense
-    literal parser is keyed by the dense literal parser)."""
+    """Canonical mechanism site of a slow / hung parse from its stack (innermost first, [(filename, function name)]).
+
+    Walk outwards from the innermost frame to the first frame of the anchored parser files (parser package, lexers,
+    exceptions) that is not a generic token helper: that function is the key, whatever syntactic route led to it (a dense
+    splat reached from a generic attribute dictionary, a property, a typed attribute or a declarative-format op such as
+    arith.constant is always `attribute_parser.py:_build_dense_int_or_fp_elements_attr`).  If dialect code (tier B) lies
+    BELOW that frame, the time is spent in dialect code called by the parser (e.g. `!smt.bv<N>` computing 2**N): the
+    site is the innermost dialect frame, prefixed `tierB/` (reported as an observation, see TIER_B_IN_VERDICT)."""
     xf = [(fn, name) for fn, name in frames if "/xdsl/" in fn and "/verif/" not in fn]
+    inner_b = None
     for fn, name in xf:
         if frame_is_tier_b(fn):
-            return f"{os.path.basename(fn)}:{name}"
-    for fn, name in xf:
-        if ("/xdsl/parser/" in fn or fn.endswith(("lexer.py", "exceptions.py"))) and name not in GENERIC_HELPERS:
+            inner_b = inner_b or f"tierB/{os.path.basename(fn)}:{name}"
+        elif _anchored(fn) and name not in GENERIC_HELPERS:
+            return inner_b or f"{os.path.basename(fn)}:{name}"
+    if inner_b:
+        return inner_b
+    for fn, name in xf:  # only helpers on the stack (e.g. stuck inside a token regex)
+        if _anchored(fn):
             return f"{os.path.basename(fn)}:{name}"
     return f"{os.path.basename(xf[0][0])}:{xf[0][1]}" if xf else "?"
 
@@ -449,6 +467,12 @@ def parse_once(text: str, unreg: bool, implicit: bool = True, verify_stage: bool
     exc = None
     module = None
     signal.setitimer(signal.ITIMER_VIRTUAL, budget(len(text)) / 2, 0.05)
+    if G.fh is None:
+        import tempfile
+        G.fh = tempfile.TemporaryFile(mode="w+")
+    # C-level stack samples (watchdog thread): unlike the Python-level sampler above they also see a frame that spends
+    # its time in one long C call (big-int arithmetic, regex) and returns right after it
+    faulthandler.dump_traceback_later(budget(len(text)) / 2, repeat=True, file=G.fh)
     t0 = time.process_time()
     try:
         module = Parser(ctx, text, "<c07>").parse_module(implicit)
@@ -475,8 +499,21 @@ def parse_once(text: str, unreg: bool, implicit: bool = True, verify_stage: bool
         rec["stage"] = "parse"
     rec["cpu"] = time.process_time() - t0
     signal.setitimer(signal.ITIMER_VIRTUAL, 0, 0)
+    faulthandler.cancel_dump_traceback_later()
     rec["tokens"] = G.tokens - tok0
     rec["slow_site"] = max(G.slow_hist.items(), key=lambda kv: kv[1])[0] if G.slow_hist else None
+    if G.fh.tell():
+        G.fh.seek(0)
+        hist = {}
+        for dump in G.fh.read().split("Stack (most recent call first):")[1:]:
+            frames = [(m.group(1), m.group(3)) for m in re.finditer(r'File "([^"]+)", line (\d+) in (\S+)', dump)]
+            if frames:
+                q = pick_site(frames)
+                hist[q] = hist.get(q, 0) + 1
+        G.fh.seek(0)
+        G.fh.truncate()
+        if hist:
+            rec["slow_site"] = max(hist.items(), key=lambda kv: kv[1])[0]
     if rec["outcome"] == "crash":
         tier, site, sfile, outer, summ = classify_exc(exc)
         rec.update(tier=tier, site=site, sfile=sfile, outer=outer, frames=summ, etype=type(exc).__name__,
@@ -580,7 +617,7 @@ def account(b: Batch, rec, text, seed_text, meta, unreg):
                "exception": rec["etype"], "message": rec.get("msg"), "frames": rec["frames"], "tier": rec["tier"], "gen": meta}
         if len(text) <= 20000:
             wit["replay_job"] = replay_job(text, unreg)
-        if rec["tier"] == "A" or TIER_B_IN_VERDICT or rec["etype"] in ("RecursionError", "MemoryError", "SystemExit"):
+        if rec["tier"] == "A" or TIER_B_IN_VERDICT or rec["etype"] in ("RecursionError", "SystemExit"):
             b.c("crash_tierA" if rec["tier"] == "A" else "crash_tierB_verdict")
             b.violations.append({"key": key, "summary": f"{rec['etype']} escaped parse_module from {rec['sfile']}:{rec['site']}: {rec.get('msg', '')[:100]}",
                                  "witness": wit})
@@ -744,7 +781,10 @@ def child_run(job, tasks, a, out: ChildOut):
                 wit = {"family": fam[0], "prefix": fam[1], "unit": fam[2], "suffix": fam[3], "k": k1, "len": r1["len"],
                        "cpu_s": [round(r["cpu"], 4) for _, r in ladder], "ks": [kq for kq, _ in ladder], "budget_s": budget(r1["len"]),
                        "text_head": c07_mut.pump_text(fam, 4)[:400]}
-                if g is not None and g >= GROWTH:
+                if g is not None and g >= GROWTH and site.startswith("tierB/") and not TIER_B_IN_VERDICT:
+                    b.c("superlinear_tierB_observed")
+                    b.s("tierB_hang_sites_observed", "superlinear:" + site[6:])
+                elif g is not None and g >= GROWTH:
                     b.violations.append({"key": f"superlinear:{site}", "summary":
                                          f"pump {fam[0]!r} k={k1} ({r1['len']} chars) took {r1['cpu']:.2f}s CPU (> budget {budget(r1['len']):.2f}s), x{g:.1f} vs the previous ladder step",
                                          "witness": wit})
@@ -772,7 +812,10 @@ def child_run(job, tasks, a, out: ChildOut):
                 site = rec.get("slow_site") or rec.get("site") or "?"
                 wit = {"text": text if len(text) < 20000 else text[:20000], "len": len(text), "cpu_s": round(rec["cpu"], 3), "budget_s": budget(len(text)),
                        "probe": best, "gen": meta, "replay_job": replay_job(text, unreg) if len(text) < 20000 else None}
-                if best and best[0] >= GROWTH:
+                if best and best[0] >= GROWTH and site.startswith("tierB/") and not TIER_B_IN_VERDICT:
+                    b.c("superlinear_tierB_observed")
+                    b.s("tierB_hang_sites_observed", "superlinear:" + site[6:])
+                elif best and best[0] >= GROWTH:
                     b.violations.append({"key": f"superlinear:{site}", "summary":
                                          f"{rec['cpu']:.2f}s CPU for {len(text)} chars; {best[1]} -> x{best[0]:.1f}", "witness": wit})
                 else:
@@ -955,7 +998,13 @@ def work(job):
                 wit.update(st["family"], k=sub)
             if len(text) <= 20000:
                 wit["replay_job"] = replay_job(text, unreg)
-            if res["status"] in ("hang", "stuck"):
+            if res["status"] in ("hang", "stuck") and res["site"].startswith("tierB/") and not TIER_B_IN_VERDICT:
+                hangs += 1
+                total.c("hangs_killed")
+                total.c("hangs_tierB_observed")
+                total.s("tierB_hang_sites_observed", "hang:" + res["site"][6:])
+                total.extra.setdefault("tierB_hang_examples", {}).setdefault(res["site"][6:], {"text": wit["text"][:1500], "stack": res["dump"][:1500]})
+            elif res["status"] in ("hang", "stuck"):
                 hangs += 1
                 total.c("hangs_killed")
                 wit["stack"] = res["dump"]
@@ -1050,7 +1099,8 @@ def finish(agg, tier):
         reasons.append(f"only {len(agg.sets.get('exit_functions', ()))} distinct parser exit functions reached (< 120)")
     if len(agg.nontrivial) < exp // 3:
         reasons.append(f"distinct non-trivial inputs {len(agg.nontrivial)} < {exp // 3}")
-    cov = {"tierB_crash_keys_observed": len(agg.sets.get("tierB_crash_sites", ())),
+    cov = {"tierB_hang_sites_observed": sorted(agg.sets.get("tierB_hang_sites_observed", ())),
+           "tierB_crash_keys_observed": len(agg.sets.get("tierB_crash_sites", ())),
            "tierB_crash_keys": sorted(agg.sets.get("tierB_crash_sites", ())),
            "verify_stage_crash_keys_observed": sorted(agg.sets.get("verify_stage_crash_sites_observed", ())),
            "tier_b_in_verdict": TIER_B_IN_VERDICT,
